@@ -5,7 +5,7 @@ import json, subprocess, sys
 
 CHECKS = {
  "C01": dict(engine="progspace", design="§4 C01",
-   technique="bounded-exhaustive enumeration of programs (all expression trees <= k constructors x 26 contexts, two-module products, annotation matrix) through the real load+compile+eval+emit in worker processes; oracle: accepted => document or located error, never panic/abort/hang",
+   technique="bounded-exhaustive enumeration of programs (all expression trees <= k constructors x 28 contexts, two-module products, annotation matrix) through the real load+compile+eval+emit in worker processes; oracle: accepted => document or located error, never panic/abort/hang",
    text="Every program of the stated bounded spaces (quick: 0.58 M, thorough: 13.8 M programs) is run through the real pipeline; the checker decides acceptance and every accepted program must evaluate and emit without panic, abort (stack overflow / OOM are attributed to the case by the worker-process explorer) or hang (watchdog), returning a document or an error whose span lies in the sources. The space is closed under all syntax forms in all positions, so it visits the gap between 'checker says yes' and 'evaluator can cast the value' that the example tests never enter.",
    note="Bounds: expression size, one hole per context, <= 2 modules, 8 MiB stack. A panic during load/compile is C04's business. Crashes are classified by panic site + value variant and, for multi-module programs, by whether the merged single-module program is rejected; genuine defects already found are listed in known-findings.json."),
  "C02": dict(engine="progspace", design="§4 C02, §3.2, §3.3",
@@ -39,7 +39,7 @@ CHECKS = {
  "C09": dict(engine="progspace", design="§4 C09",
    technique="bounded-exhaustive enumeration of declaration graphs (all assignments of 30/44 body forms to 2/3 declarations) and rec expressions; verdict compared with a reference kind + cycle rule, documents compared with the reference graph by bisimulation",
    text="All declaration graphs on <= 3 declarations over every body form (object, array, alias, alternative, wrapper function, identity function, content), rec expressions nested / shadowing / inside functions applied with equal and different arguments, and recursion in imported modules: accept/reject must equal the independent rule 'the graph restricted to declarations that are not schemas is acyclic' (with kinds solved by a reference unifier); every accepted program must compile in finite time (watchdog) to a document whose $ref graph is closed, in which no component is a bare $ref chain to itself, and whose unfolding is bisimilar to the reference graph with no implicit component left over - two instantiations with different arguments can therefore never share a component.",
-   note="Reference kind checker covers single-module programs. Two genuine defects are listed as known findings (D16 orphan duplicate component, D17 unguarded alias cycle through a function)."),
+   note="Reference kind checker covers single-module programs. D17 (unguarded alias cycle through a function) is a known finding; D16 (orphan duplicate component) was repaired in the repository."),
  "C10": dict(engine="modgraph", design="§4 C10",
    technique="exhaustive enumeration of all import graphs on <= N modules x use orders x spellings x duplicate / missing imports, through the real module::load with a recording in-memory loader whose parse / compile are the real ones; call trace compared with a plain graph-algorithm model",
    text="All directed graphs on up to 3 (thorough 4) modules, self loops included, with every order of the use statements, relative spellings of the same file, duplicate imports and missing targets are loaded by the real loader: the result class must be the one the graph model predicts (missing import reported as that import, cycle -> CycleDetected, otherwise success), every reachable module is loaded, parsed and compiled exactly once and nothing else is, each module is compiled after everything it imports, and result class and emitted document are invariant under use order and spelling.",
@@ -62,15 +62,15 @@ CHECKS = {
    note="An added empty `components: {}` is normalised away. The quick tier may hit its wall-clock cap on a loaded machine; the evidence then reports the number of bases completed and exhaustive:false."),
  "C15": dict(engine="lsp-histories", design="§4 C15",
    technique="two explicit-state searches: (a) the complete edit-transition relation of Workspace::change over all texts <= n symbols x all ranges x replacements, against a client-side buffer model (hook H3); (b) all notification histories of depth <= d over a two-file workspace on the real oal-lsp, each compared with a fresh server given the final texts",
-   text="(a) From every text of up to 4 (thorough 6) symbols over {a, é, €, 😉, LF, CRLF} every didChange with every range (including past end of line / text) and replacement, and two-change batches, is applied by the real Workspace and compared with the client buffer model - every transition of the edit relation is checked, so no history over such texts can make the server's copy drift. (b) Every history of up to 3 (thorough 4-5) notifications (open, full and incremental changes that create and repair errors, close) over {main.oal, m.oal} and three disk states, under every placement of intermediate requests, is replayed on the real server; published diagnostics and the answers to definition / references / prepareRename / rename at every identifier must equal those of a fresh server handed the final texts, and the server must stay alive.",
+   text="(a) From every text of up to 4 (thorough 6) symbols over {a, é, €, 😉, LF, CRLF, U+FEFF} every didChange with every range (including past end of line / text) and replacement, and two-change batches, is applied by the real Workspace and compared with the client buffer model - every transition of the edit relation is checked, so no history over such texts can make the server's copy drift. (b) Every history of up to 3 (thorough 4-5) notifications (open, full and incremental changes that create and repair errors, close) over {main.oal, m.oal} and three disk states, under every placement of intermediate requests, is replayed on the real server; published diagnostics and the answers to definition / references / prepareRename / rename at every identifier must equal those of a fresh server handed the final texts, and the server must stay alive.",
    note="The idle refresh timer is explored as an explicit event in the thorough tier; histories slower than 0.8 s are re-run. Positions inside a surrogate pair are outside the property. Never-published and published-empty diagnostics are equivalent."),
  "C16": dict(engine="textspace", design="§4 C16",
    technique="explicit-state exhaustive enumeration of all texts <= n symbols x all offsets/positions/spans through the real conversion functions, compared with a line-table reference model",
-   text="Every text of up to 6 (quick) / 8 (thorough) symbols over {a, é, €, 😉, LF, CRLF} is a state; every byte offset, every (line, character) position including out-of-range ones and every span is converted by the real position_to_utf8 / utf8_to_position / utf8_range_to_position / CharSpan::from and compared with an independent line-table model. The space is enumerated completely, so the verdict is 'no text of that size has a wrong conversion', which example tests cannot give.",
+   text="Every text of up to 6 (quick) / 8 (thorough) symbols over {a, é, €, 😉, LF, CRLF, U+2028, U+0085, FF} is a state (plus four texts with more than 65535 lines or UTF-16 units per line, probed around that line / column); every byte offset, every (line, character) position including out-of-range ones and every span is converted by the real position_to_utf8 / utf8_to_position / utf8_range_to_position / CharSpan::from and compared with an independent line-table model. The space is enumerated completely, so the verdict is 'no text of that size has a wrong conversion', which example tests cannot give.",
    note="Trusts the line-table reference (40 lines) and rustc. Offsets between CR and LF and positions inside a surrogate pair are only required not to panic and to stay in range. Lone CR is outside the alphabet."),
  "C17": dict(engine="lsp-sweep", design="§4 C17",
    technique="exhaustive cursor sweep: definition and references requested at every UTF-16 position of every file of every accepted program of the name-collision space on the real oal-lsp, compared with the reference resolver's binding relation",
-   text="For every accepted program of the module / scoping fragments and of the C08 name-collision space, in two layouts (plain; multi-byte comment prefix + CRLF), the real language server is asked for definition and references at every cursor position: on a use the definition must lie in the binder's file, contain the binder identifier and lie within the binding construct; at non-identifier positions the answers must be empty; references on a declaration or on any of its uses must be exactly the uses bound to it across modules.",
+   text="For every accepted program of the module / scoping fragments and of the C08 name-collision space, in three layouts (plain; multi-byte comment prefix + CRLF + blanks around the dot of qualified names; imported modules outside the workspace folder), the real language server is asked for definition and references at every cursor position: on a use the definition must lie in the binder's file, contain the binder identifier and lie within the binding construct; at non-identifier positions the answers must be empty; references on a declaration or on any of its uses must be exactly the uses bound to it across modules.",
    note="Positions at the end of an identifier, on qualifiers, parameters and rec binders themselves are not fixed by the property and not checked."),
  "C18": dict(engine="lsp-sweep", design="§4 C18",
    technique="exhaustive cursor sweep: prepareRename at every position, rename wherever it answers; edits compared with the reference resolver's occurrence set and applied client-side, the edited sources recompiled and their document compared with the original",
